@@ -20,7 +20,7 @@ theorem pinv_push {reg : Registry} {b : Nat → Bool} {Lk : Nat → Prop} {u : U
     have hi : infl = none := h.w.mp hh
     have hs : u.specialQueue = [] := (h.q.home hh).1
     have hq := qinv_push h.q lane ev reg
-    rw [push_home u lane ev reg hh] at hq ⊢
+    rw [push_home_linklanguplinks u lane ev reg hh] at hq ⊢
     subst hi
     have hp0 : ∀ n, pend reg u none n = [] := by intro n; simp [pend, inflNotes, hs, spNotes]
     have hbm : b m = true := by rw [hp0] at hopen; simpa [runNotes] using hopen
